@@ -83,6 +83,7 @@ class ScriptedSocket(socket.socket):
         self._dead_polls = 0
         self._inspect = inspect
         self.calls = 0
+        self.closed = False  # the peer closed (possibly before delivering everything: a crash point)
 
     @property
     def delivered(self):
@@ -90,14 +91,17 @@ class ScriptedSocket(socket.socket):
 
     def recv(self, n, flags=0):
         self.calls += 1
-        remaining = len(self._data) - self._off
+        remaining = 0 if self.closed else len(self._data) - self._off
         if remaining == 0:
+            self.closed = True
             self._dead_polls += 1
             if self._dead_polls > DEAD_POLL_LIMIT:
                 raise Livelock(f"recv called {self._dead_polls} times after the peer closed")
         c = self._decide(n, remaining, self._key_now if self._inspect else None, self)
         if c < 0 or c > remaining or (n is not None and n >= 0 and c > n):
             raise AssertionError(f"explorer bug: illegal delivery {c} (n={n}, remaining={remaining})")
+        if c == 0:
+            self.closed = True
         out = self._data[self._off:self._off + c]
         self._off += c
         return out
